@@ -65,7 +65,7 @@ RULE = ("exhaustive: every pair (thorough: triple) of screens over 3 cell kinds 
         "blank} on tiny terminals, inline and full-screen, rendered as a chain, every third one ending with a done "
         "render; then seeded random chains of <= 8 screens (W<=12, H<=6, origin below the top, wide and multi-char "
         "cells, zero-width escapes, equal-attrs style ids, grow/shrink, small edits of the previous screen, "
-        "erase/clear, style-key changes, depths 1/4/8/24), direct differ calls with arbitrary cursor / last style / "
+        "erase/clear, style-key changes, depths 1/4/8/24 with the depth CHANGING between renders), direct differ calls with arbitrary cursor / last style / "
         "previous width (call correspondence only), Renderer sequences with resizes and bare resets (call "
         "correspondence only), and screens produced by real PromptSession layouts (completion menus, toolbars, "
         "multiline, wide prompts) during random editing sessions; a case is non-trivial when at least two renders "
@@ -100,6 +100,7 @@ PARTIAL_SCOPE = ["cell contents: theorems cover single-character cells of width 
 
 DEPTHS = {1: ColorDepth.DEPTH_1_BIT, 4: ColorDepth.DEPTH_4_BIT, 8: ColorDepth.DEPTH_8_BIT,
           24: ColorDepth.DEPTH_24_BIT}
+DEPTH_NUM = {v: k for k, v in DEPTHS.items()}
 SHAPES = [CursorShape._NEVER_CHANGE, CursorShape.BLOCK, CursorShape.BEAM, CursorShape.UNDERLINE]
 PLAIN = ["", "", "0000000"]
 
@@ -190,7 +191,8 @@ class RecOutput(Output):
     def erase_end_of_line(self): self._r("EL", "erase_end_of_line")
     def erase_down(self): self._r("ED", "erase_down")
     def reset_attributes(self): self._r("A0", "reset_attributes")
-    def set_attributes(self, attrs, color_depth): self._r("A" + enc_attrs(attrs), "set_attributes", attrs, color_depth)
+    def set_attributes(self, attrs, color_depth):
+        self._r("A" + enc_attrs(attrs) + "@" + str(DEPTH_NUM[color_depth]), "set_attributes", attrs, color_depth)
     def disable_autowrap(self): self._r("aw-", "disable_autowrap")
     def enable_autowrap(self): self._r("aw+", "enable_autowrap")
     def cursor_goto(self, row=0, column=0): self._r(f"G{row},{column}", "cursor_goto", row, column)
@@ -566,7 +568,7 @@ def all_chars(case):
 
 
 def header_lines(case):
-    L = [f"cfg {case['W']} {case['H']} {enc_bool(case['fs'])}"]
+    L = [f"cfg {case['W']} {case['H']} {enc_bool(case['fs'])}", f"depth {case['depth']}"]
     for sid, a in sorted(style_table(case).items()):
         L.append(f"style {sid} {enc_attrs(a)}".replace("/", " "))
     cs = all_chars(case)
@@ -618,6 +620,11 @@ def last_tok(table_rev, last):
     return "N" if last is None else str(table_rev.get(last, "?"))
 
 
+def op_depth(case, op):
+    """colour depth of one render: `app.color_depth` may change between renders"""
+    return op.get("depth", case["depth"])
+
+
 def gridable(case):
     """the Lean terminal stores abstract Attrs, the interpreter parsed SGR: comparable when the escape codes of
     the case's attrs are pairwise distinct at the case's depth"""
@@ -643,8 +650,8 @@ def grid_plan(case):
     plan = []
     for op in case["ops"]:
         k = op["op"]
-        if k in ("size", "reset"):
-            on = False
+        if k in ("size", "reset") or op_depth(case, op) != case["depth"]:
+            on = False          # (a depth flip: the Lean terminal stores depth-independent attrs)
         if case["fs"] and (k == "clear" or (k == "erase" and op.get("la", 1)) or op.get("done")):
             on = False
         plan.append(on and k in ("render", "diff", "erase", "clear"))
@@ -711,6 +718,7 @@ def run_case(case, tee):
                 res.append((op, None, None, ""))
                 continue
             scr = build_screen(op["scr"])
+            app.color_depth = DEPTHS[op_depth(case, op)]
             if "pos" in op:
                 pos = Point(x=op["pos"][0], y=op["pos"][1])
             if "last" in op:
@@ -740,6 +748,7 @@ def run_case(case, tee):
                 flag["mouse"] = bool(op.get("mouse", 0))
                 style.key = op.get("key", 0)
                 app.cursor.shape = op.get("shape", 0)
+                app.color_depth = DEPTHS[op_depth(case, op)]
                 r.render(app, layout, is_done=bool(op["done"]))
             elif k == "erase":
                 r.erase(leave_alternate_screen=bool(op.get("la", 1)))
@@ -806,7 +815,8 @@ def layout_to_rend(case):
             app.output = out
             app.full_screen = fs
             app.renderer = Renderer(app._merged_style, out, full_screen=fs, mouse_support=app.mouse_support)
-            app._color_depth = DEPTHS[case["depth"]]
+            cur_depth = {"d": case["depth"]}
+            app._color_depth = lambda: DEPTHS[cur_depth["d"]]       # a callable colour depth, flipped between keys
             if not fs and cfg.get("cpr", 1):
                 app.renderer.report_absolute_cursor_row(top + 1)
 
@@ -834,13 +844,16 @@ def layout_to_rend(case):
                 cur = scr.get_cursor_position(app.layout.current_window)
                 ops.append({"op": "render", "scr": {"h": scr.height, "cur": [cur.x, cur.y],
                                                      "show": int(bool(scr.show_cursor)), "cells": cells, "zwe": zwe},
-                            "done": int(bool(ed.done)), "raw": 1})
+                            "done": int(bool(ed.done)), "raw": 1, "depth": cur_depth["d"]})
 
             render()
-            for k in case["keys"]:
+            flips = case.get("depths") or []
+            for i, k in enumerate(case["keys"]):
                 if ed.done:
                     break
                 ed.feed(k)
+                if i < len(flips) and flips[i]:
+                    cur_depth["d"] = flips[i]
                 render()
     finally:
         R._output_screen_diff = orig
@@ -874,6 +887,7 @@ def model_lines(case):
             body.append(f"size {op['W']} {op['H']}")
         elif k == "diff":
             body += screen_lines(op["scr"], extra)
+            body.append(f"depth {op_depth(case, op)}")
             if op.get("noprev"):
                 body.append("noprev")
             body.append("diff " + " ".join([
@@ -884,6 +898,7 @@ def model_lines(case):
             body.append("keep")
         elif k == "render":
             body += screen_lines(op["scr"], extra)
+            body.append(f"depth {op_depth(case, op)}")
             body.append(f"render {enc_bool(op['done'])} {enc_bool(op.get('mouse', 0))} {op.get('key', 0)} "
                         f"{op.get('shape', 0)}")
         elif k == "erase":
@@ -924,7 +939,7 @@ def impl_lines(case):
             body.append("ok")
             continue
         if "scr" in op:
-            body += ["ok"] * len(screen_lines(op["scr"], extra))
+            body += ["ok"] * (len(screen_lines(op["scr"], extra)) + 1)      # + the depth line
         if k == "diff" and op.get("noprev"):
             body.append("ok")
         body.append(f"{enc_calls(calls)} | {st}")
@@ -948,11 +963,11 @@ def _viol(site, cond, msg):
     return {"signature": f"{site} | {cond}", "msg": msg}
 
 
-def expected_cells(js, case, W, H):
+def expected_cells(js, case, W, H, depth):
     """what the owned rows must show for screen `js`: {(y, x): (text, sgr)} for the cells laid out from the
     left, a wide / multi-character cell covering the following columns; everything else blank"""
     out = Vt100_Output(io.StringIO(), lambda: Size(1, 1), term="xterm")
-    cache = out._escape_code_caches[DEPTHS[case["depth"]]]
+    cache = out._escape_code_caches[DEPTHS[depth]]
     tab = style_table(case)
     plain = mk_attrs(PLAIN)
 
@@ -1036,6 +1051,7 @@ class _Real:
             prev, pos, last = None, Point(0, 0), None
             for op in case["ops"]:
                 scr = build_screen(op["scr"])
+                self.app.color_depth = DEPTHS[op_depth(case, op)]
                 if op.get("noprev"):
                     prev = None
                 if "pos" in op:
@@ -1060,6 +1076,7 @@ class _Real:
                     flag["mouse"] = bool(op.get("mouse", 0))
                     style.key = op.get("key", 0)
                     self.app.cursor.shape = op.get("shape", 0)
+                    self.app.color_depth = DEPTHS[op_depth(case, op)]
                     r.render(self.app, layout, is_done=bool(op["done"]))
                 elif k == "erase":
                     r.erase(leave_alternate_screen=bool(op.get("la", 1)))
@@ -1070,7 +1087,7 @@ class _Real:
                 yield op, self.take(), last_h
 
 
-def scratch_vt(case, js, done, top):
+def scratch_vt(case, js, done, top, depth):
     """clear + draw `js` from scratch with the real differ on a fresh terminal"""
     W, H, fs = case["W"], case["H"], bool(case["fs"])
     buf = io.StringIO()
@@ -1078,7 +1095,7 @@ def scratch_vt(case, js, done, top):
     style = StubStyle(style_table(case))
     afs = _StyleStringToAttrsCache(style.get_attrs_for_style_str, DummyStyleTransformation())
     hs = _StyleStringHasStyleCache(afs)
-    app = StubApp(case["depth"])
+    app = StubApp(depth)
     _output_screen_diff(app, out, build_screen(js), Point(0, 0), app.color_depth, None, None, done, fs, afs, hs,
                         Size(rows=H, columns=W), 0)
     out.flush()
@@ -1166,12 +1183,13 @@ def oracle(case):
                    if not (vt.top <= y + shift < vt.top + bound and x < W)]
         if outside and not shift:
             bad("wrote outside the owned rows", f"{where}: cells {outside[:4]} bound rows<{bound}")
-        exp = expected_cells(js, case, W, H)
+        depth = op_depth(case, op)       # colours are compared as emitted at the depth of THIS render
+        exp = expected_cells(js, case, W, H, depth)
         d = compare_grid(vt, exp, W, H, shift)
         if d:
             bad("terminal does not show the screen",
                 f"{where}: cell (y={d[0]},x={d[1]}) want {d[2]} got {d[3]}; screen={js}")
-        sv = scratch_vt(case, js, done, vt.top)
+        sv = scratch_vt(case, js, done, vt.top, depth)
         # compare with the from-scratch draw (same origin-relative coordinates)
         ga, gb = vt.owned(), sv.owned()
         diffc = None
@@ -1295,21 +1313,29 @@ def rand_chain(rng, tier):
     n = rng.randrange(1, 9)
     prev = None
     fresh = True
+    cur_depth = depth
+    drawn_depth = None
     for _ in range(n):
+        if rng.random() < 0.2:
+            cur_depth = rng.choice([1, 4, 8, 24])      # app.color_depth changes between two renders
         if prev is not None and rng.random() < 0.5:
             js = mutate_screen(rng, prev, W, avail)
         else:
             js = rand_screen(rng, W, avail)
         done = 1 if rng.random() < 0.12 else 0
         if kind == "diff":
-            op = {"op": "diff", "scr": js, "done": done}
+            op = {"op": "diff", "scr": js, "done": done, "depth": cur_depth}
+            if drawn_depth is not None and cur_depth != drawn_depth and not fresh:
+                # the differ itself does not look at the depth of the previous call: a caller that changes the
+                # depth must forget the previous screen (as Renderer.render does)
+                op["noprev"] = 1
             if fresh:
                 op["noprev"] = 1
                 op["pos"] = [0, 0]
             case["ops"].append(op)
         else:
             op = {"op": "render", "scr": js, "done": done, "mouse": int(rng.random() < 0.1),
-                  "key": int(rng.random() < 0.1), "shape": rng.choice([0, 0, 0, 1, 2])}
+                  "key": int(rng.random() < 0.1), "shape": rng.choice([0, 0, 0, 1, 2]), "depth": cur_depth}
             case["ops"].append(op)
             r = rng.random()
             if not done and r < 0.06:
@@ -1319,6 +1345,7 @@ def rand_chain(rng, tier):
                 case["ops"].append({"op": "clear"})
                 prev = None
                 avail = H
+        drawn_depth = cur_depth
         fresh = bool(done)
         if done:
             avail = H - top          # the next prompt starts on a fresh terminal with the origin at `top`
@@ -1367,7 +1394,8 @@ def rand_resize(rng):
             case["ops"].append({"op": "clear"})
         else:
             case["ops"].append({"op": "render", "scr": rand_screen(rng, W, H, wild=True), "done": int(rng.random() < 0.15),
-                                "mouse": rng.randrange(2), "key": rng.randrange(3), "shape": rng.randrange(4)})
+                                "mouse": rng.randrange(2), "key": rng.randrange(3), "shape": rng.randrange(4),
+                                "depth": rng.choice([case["depth"], case["depth"], 1, 24])})
     return case
 
 
@@ -1383,8 +1411,9 @@ def rand_layout(rng):
     keys = [rng.choice(LAYOUT_KEYS) for _ in range(rng.randrange(1, 10))]
     if rng.random() < 0.6:
         keys.append("\x1b\r" if cfg["multiline"] and rng.random() < 0.8 else "\r")
+    depths = [rng.choice([1, 4, 8, 24]) if rng.random() < 0.2 else 0 for _ in keys]
     return {"kind": "layout", "W": W, "H": H, "top": 0, "fs": fs, "depth": rng.choice([1, 4, 8, 24]), "cfg": cfg,
-            "keys": keys, "chain": True}
+            "keys": keys, "depths": depths, "chain": True}
 
 
 SMALL_KINDS = [None, ("a", 0), (" ", 2)]
@@ -1419,9 +1448,12 @@ def small_cases(sizes, n, sample=None, modes=(0, 1)):
                     hh = max(1, base["h"])
                     cur = [0, 0] if (idx + j) % 2 == 0 else [W - 1, hh - 1]
                     ops.append({"op": "render", "scr": dict(base, cur=cur, show=(idx + j) % 3 != 0), "done": 0})
+                # every fourth chain changes the colour depth before its second render (8 bit -> 1 bit / 24 bit)
+                if idx % 4 == 1 and len(ops) > 1:
+                    ops[1]["depth"] = 1 if idx % 8 == 1 else 24
                 # every third chain ends with a done render of its last screen
                 if idx % 3 == 0:
-                    ops.append({"op": "render", "scr": ops[-1]["scr"], "done": 1})
+                    ops.append(dict(ops[-1], done=1))
                 idx += 1
                 yield {"kind": "rend", "W": W, "H": H, "fs": fs, "depth": 8,
                        "styles": [[2, "", "ansired", "0000000"]], "chain": True, "ops": ops}
@@ -1460,19 +1492,24 @@ def sample_view(case):
 
 def distribution(cases_):
     d = {"kind": {}, "W": {}, "H": {}, "ops": {}, "renders_per_case": {}, "wide_cells": 0, "done_renders": 0,
-         "full_screen": 0, "chain": 0}
+         "full_screen": 0, "chain": 0, "depth_changes": 0}
     for c in cases_:
         d["kind"][c["kind"]] = d["kind"].get(c["kind"], 0) + 1
         if c["kind"] == "layout":
             d["ops"]["key"] = d["ops"].get("key", 0) + len(c["keys"])
+            d["depth_changes"] += sum(1 for x in c.get("depths") or [] if x and x != c["depth"])
             continue
         d["W"][str(c["W"])] = d["W"].get(str(c["W"]), 0) + 1
         d["H"][str(c["H"])] = d["H"].get(str(c["H"]), 0) + 1
         d["full_screen"] += int(bool(c["fs"]))
         d["chain"] += int(bool(c.get("chain", True)))
         n = 0
+        last_depth = c["depth"]
         for op in c["ops"]:
             d["ops"][op["op"]] = d["ops"].get(op["op"], 0) + 1
+            if "scr" in op:
+                d["depth_changes"] += int(op.get("depth", c["depth"]) != last_depth)
+                last_depth = op.get("depth", c["depth"])
             if "scr" in op:
                 n += 1
                 d["done_renders"] += int(bool(op["done"]))
